@@ -163,10 +163,7 @@ def prunePaths (treeSep : Str) (t : Tree) (paths : List Str) (exact : Bool) (sep
   if paths.isEmpty then .ok t else
   (locate treeSep t sepArg paths).map fun N =>
     let A0 := N.flatMap properPrefixes
-    -- `if exact: ancestors_to_prune.update(nodes_to_prune)`, `else:` (repair D11) the ancestors that are themselves a
-    -- target or lie below a target are taken out: descendants of a prune path are retained
-    let A := if exact then A0 ++ N
-      else A0.filter fun a => !(N.contains a) && !((properPrefixes a).any N.contains)
+    let A := if exact then A0 ++ N else A0
     detach A N [] t
 
 /-- `prune_tree(tree, prune_path, exact, sep, max_depth)` for a root `tree` whose separator is
